@@ -131,6 +131,12 @@ def build_big(ctx):
                                 sanitize=not ctx.quick, extra_flags=["-DPAYLOAD_BIG"])
 
 
+def build_ref(ctx):
+    """the same replayer over future<int&> (reference-type instantiation: the future stores the address of the resolver's lvalue)"""
+    return vlib.compile_harness(os.path.join(vlib.VERIF, "harness/future_replay.cpp"), "future_replay_ref",
+                                sanitize=not ctx.quick, extra_flags=["-DPAYLOAD_REF"])
+
+
 def run_mixes(ctx, rp, jobs, max_paths=None, par=6, tagp="m", bind=False):
     """jobs: list of (rmix, wmix); TLC + replay per mix, several mixes in parallel"""
     from concurrent.futures import ThreadPoolExecutor
